@@ -298,6 +298,16 @@ impl<'a, T: Read + Write + Seek> PointCloudWriter<'a, T> {
             }
         }
 
+        // The records are stored as children of an XML structure and identified by their names
+        for (index, record) in prototype.iter().enumerate() {
+            if prototype[..index].iter().any(|p| p.name == record.name) {
+                Error::invalid(format!(
+                    "The record {:?} is used more than once",
+                    record.name
+                ))?
+            }
+        }
+
         // Cartesian or spherical?
         validate_cartesian(prototype)?;
         validate_spherical(prototype)?;
